@@ -45,6 +45,8 @@ struct LogImage {
     records: Vec<LogRecord>,
     segments: Vec<(u64, PathBuf)>,
     origin: String,
+    /// states after every prefix of the API-level history (a multi-key removal is ONE operation)
+    api_states: Vec<State>,
 }
 
 fn apply(st: &mut State, op: &DOp) {
@@ -60,7 +62,7 @@ fn apply(st: &mut State, op: &DOp) {
     }
 }
 
-fn analyse(root: &Path, n_ops: u64, origin: String) -> Result<LogImage, String> {
+fn analyse(root: &Path, n_ops: u64, origin: String, ops: &[Op<Vec<u8>>]) -> Result<LogImage, String> {
     let mut st: State = BTreeMap::new();
     let mut snap_v = 0u64;
     if let Ok(b) = std::fs::read(root.join("index")) {
@@ -91,7 +93,18 @@ fn analyse(root: &Path, n_ops: u64, origin: String) -> Result<LogImage, String> 
             apply(&mut st, &op);
         }
     }
-    Ok(LogImage { root: root.to_path_buf(), n_ops, records, segments, origin })
+    // API-level prefix states from the reference model
+    let mut api_states: Vec<State> = Vec::new();
+    let mut mr: ModelRunner<Vec<u8>> = ModelRunner::new();
+    let snap = |mr: &ModelRunner<Vec<u8>>| -> State {
+        mr.model.map.iter().map(|(k, v)| (k.clone(), (cassadilia_verif::model::b3(v), v.len() as u64))).collect()
+    };
+    api_states.push(snap(&mr));
+    for op in ops {
+        mr.step(op);
+        api_states.push(snap(&mr));
+    }
+    Ok(LogImage { root: root.to_path_buf(), n_ops, records, segments, origin, api_states })
 }
 
 /// Copy only what replay looks at (no blobs).
@@ -182,7 +195,21 @@ fn judge(img: &LogImage, rec: &LogRecord, dmg: &Damage, rep: &mut Report, seed: 
         ),
         Ok(Err(_)) => rep.count(&format!("rejected: {site}"), 1),
         Ok(Ok(state)) => {
-            if state == rec.prefix_state {
+            if state == rec.prefix_state && !img.api_states.contains(&state) {
+                rep.violate(
+                    Finding::new(
+                        &["C10"],
+                        "a damaged log was accepted with part of one operation applied",
+                        &site,
+                        format!(
+                            "{what}: opened with {} keys, which is the state after no prefix of the {} operations of the history",
+                            state.len(),
+                            img.api_states.len() - 1
+                        ),
+                    ),
+                    replay(),
+                );
+            } else if state == rec.prefix_state {
                 rep.count(&format!("prefix accepted: {site}"), 1);
             } else {
                 rep.violate(
@@ -269,17 +296,28 @@ fn build(seed: u64, case: u64, tools: &Tools, rep: &mut Report) -> Option<(LogIm
     let base = fsx::fresh_path("wal");
     std::fs::create_dir_all(&base).ok()?;
     let root = base.join("db");
-    let class = case % 4;
+    let class = case % 5;
     match class {
-        0 | 1 | 2 => {
-            // clean drop; 0: no snapshot at all, 1: tail after a rollover checkpoint, 2: long records
+        0 | 1 | 2 | 4 => {
+            // clean drop; 0: no snapshot at all, 1: tail after a rollover checkpoint, 2: long records,
+            // 4: a range removal over hundreds of keys (one operation, however it is logged)
             let n_ops = match class {
                 0 => 1000,
                 1 => *rng.pick(&[3u64, 5, 7]),
                 _ => 1000,
             };
             let len = rng.range(5, 12) as usize;
-            let ops: Vec<Op<Vec<u8>>> = history(&mut rng, class == 2, len);
+            let ops: Vec<Op<Vec<u8>>> = if class == 4 {
+                let n = rng.range(140, 330) as usize;
+                let mut v: Vec<Op<Vec<u8>>> = (0..n)
+                    .map(|i| Op::Put { key: format!("m{i:04}").into_bytes(), content: Content::new(9, 9), chunks: vec![] })
+                    .collect();
+                v.push(Op::RemoveRange { lo: std::ops::Bound::Unbounded, hi: std::ops::Bound::Unbounded });
+                v.push(Op::Put { key: b"after".to_vec(), content: Content::new(10, 11), chunks: vec![] });
+                v
+            } else {
+                history(&mut rng, class == 2, len)
+            };
             let mut sess = Session::<Vec<u8>>::open(&root, config(n_ops, true, false, false, false)).ok()?;
             for op in &ops {
                 if sess.exec(op).is_err() {
@@ -289,7 +327,7 @@ fn build(seed: u64, case: u64, tools: &Tools, rep: &mut Report) -> Option<(LogIm
             }
             sess.close();
             let origin = format!("class {class} clean drop n_ops={n_ops}\n{}", enc_script(&ops));
-            match analyse(&root, n_ops, origin) {
+            match analyse(&root, n_ops, origin, &ops) {
                 Ok(img) => Some((img, base)),
                 Err(e) => {
                     rep.inconclusive.push(format!("could not analyse an undamaged log: {e}"));
@@ -352,7 +390,7 @@ fn build(seed: u64, case: u64, tools: &Tools, rep: &mut Report) -> Option<(LogIm
                 return None;
             }
             let origin = format!("class 3 killed before checkpoint call {k} n_ops={n_ops}\n{}", enc_script(&ops));
-            match analyse(&root, n_ops, origin) {
+            match analyse(&root, n_ops, origin, &ops) {
                 Ok(img) => {
                     let segs: std::collections::BTreeSet<u64> = img.records.iter().map(|r| r.seg_id).collect();
                     if segs.len() >= 2 {
@@ -382,7 +420,15 @@ fn run_case(seed: u64, case: u64, thorough: bool, tools: &Tools, rep: &mut Repor
         (0..img.records.len()).collect()
     } else {
         let largest = (0..img.records.len()).max_by_key(|i| img.records[*i].total).unwrap();
-        let mut v = vec![0, img.records.len() - 1, largest, rng.usize(img.records.len()), rng.usize(img.records.len())];
+        let mut v = vec![
+            0,
+            img.records.len() - 1,
+            largest,
+            (largest + 1).min(img.records.len() - 1),
+            largest.saturating_sub(1),
+            rng.usize(img.records.len()),
+            rng.usize(img.records.len()),
+        ];
         v.sort();
         v.dedup();
         v
